@@ -67,11 +67,21 @@ def prior_keys(n: int) -> tuple[str, ...]:
 
 
 def weights(n: int, key: str) -> np.ndarray:
-    if key == "none":
+    if key in ("none", "uniform"):
         return np.ones(n) / n
     if key == "ones":
         return np.ones(n)
-    return catalog.prior(n, key)
+    if n <= 5:
+        return catalog.prior(n, key)
+    # larger ensembles (the eight PBR states): the catalogue's conditioning filter (gaps >= 0.03) is infeasible there
+    if key == "ramp":
+        w = np.arange(n, 0, -1, dtype=float)
+        return w / w.sum()
+    for attempt in range(200):
+        p = catalog.rng(f"c11prior{n}", int(key[1:]), attempt).dirichlet(np.ones(n) * 2.0)
+        if p.min() > 0.02:
+            return p
+    raise RuntimeError("no generic prior")
 
 
 def natural(v: np.ndarray) -> np.ndarray:
